@@ -191,6 +191,48 @@ theorem finalize_retry_completes (w : World) (ss : List Shape) (h : WInvW w ss) 
     simp only [hx, if_true]
     rw [rewriteHeader_mid w.shx _ _ (h.shx hx) (Header.enc_length _), hx']; rfl
 
+theorem rewriteHeader_pos (d : Dst) (hdr : Bytes) : (rewriteHeader d hdr).pos = (rewriteHeader d hdr).data.length := by
+  simp [rewriteHeader, Dst.apply]
+
+/-- MAIN (retry, continued): the retried finalize does not only complete the files, it restores the
+writer's full invariant — positions at the end of both destinations included — so that ANY later
+history (more shapes, more finalize calls, the drop) behaves exactly as on a writer that never saw a
+failure: in particular a shape written after the retry is appended, not written over a record -/
+theorem finalize_retry_restores_invariant (w : World) (ss : List Shape) (h : WInvW w ss) (hh : Homog ss)
+    (hd : w.st.dirty = true) (hnx : w.st.hasShx = false → w.shx = Dst.empty) :
+    WInv (w.call .finalize).1 ss := by
+  obtain ⟨_, hshp, hshx⟩ := finalize_retry_completes w ss h hd
+  rw [call_finalize_dirty w hd] at hshp hshx ⊢
+  simp only at hshp hshx
+  refine ⟨hh, h.recNum, h.fileLength, h.version, h.shapeType, h.bbox, ?_, ?_, ?_⟩
+  · exact ⟨(finalHeader ss).enc, Or.inl (Header.enc_length _), hshp, rewriteHeader_pos _ _⟩
+  · cases hx : w.st.hasShx
+    · simp only [hx, Bool.false_eq_true, if_false]
+      exact hnx hx
+    · simp only [hx, if_true]
+      have := hshx hx
+      simp only [hx, if_true] at this
+      exact ⟨(finalShxHeader ss).enc, Or.inl (Header.enc_length _), this, rewriteHeader_pos _ _⟩
+  · intro _
+    refine ⟨hshp, fun hx => ?_⟩
+    simp only at hx
+    exact hshx hx
+
+/-- ... hence after a failed finalize, a retry, and any further history, dropping the writer leaves
+the complete files of everything accepted: the failure has left no trace -/
+theorem retry_then_history (w : World) (ss : List Shape) (h : WInvW w ss) (hh : Homog ss)
+    (hd : w.st.dirty = true) (hnx : w.st.hasShx = false → w.shx = Dst.empty)
+    (cs : List WCall) (hcs : NonNullCalls cs) :
+    (((w.call .finalize).1.run cs).drop).shp.data = shpFile (cs.foldl acceptStep ss) ∧
+    (w.st.hasShx = true → (((w.call .finalize).1.run cs).drop).shx.data = shxFile (cs.foldl acceptStep ss)) := by
+  have hinv := finalize_retry_restores_invariant w ss h hh hd hnx
+  have hrun := WInv.run hinv cs hcs
+  have hdrop := WInv.drop hrun.1
+  refine ⟨hdrop.1, fun hx => hdrop.2.1 ?_⟩
+  rw [hrun.2]
+  rw [call_finalize_dirty w hd]
+  exact hx
+
 /-- the faulty run of a plan, destination by destination -/
 theorem runOps_shp (fw : FWorld) (sops : List IOOp) (rest : List (DestId × IOOp)) :
     fw.runOps (sops.map (fun o => (DestId.shp, o)) ++ rest) =
